@@ -75,7 +75,7 @@ def main():
             k = demo_cmd.find("export ")
             starts = [x for x in (i, j, k) if x >= 0]
             demo_cmd = demo_cmd[min(starts):]
-            demo_cmd = demo_cmd.replace(seedroot, wt)
+            demo_cmd = demo_cmd.replace(seedroot, wt).replace('<repo>', wt).replace('$REPO', wt)
         res["demo_cmd"] = demo_cmd
         rc0, o0 = sh(demo_cmd, cwd=wt) if demo_cmd else (None, "")
         res["demo_on_clean"] = "pass" if rc0 == 0 else "FAIL(%s)" % rc0
